@@ -201,3 +201,12 @@ Proof.
   - intros j Hj. destruct j; [reflexivity | lia].
   - unfold sp_entry, suml, seg. cbn. lra.
 Qed.
+
+(* [[4,1],[1,3]] is strictly diagonally dominant with a positive diagonal *)
+From OV Require Import Proofs.IterCGDominant.
+Lemma exr_s_sdd : sp_sdd_pos exr_s.
+Proof.
+  intros i Hi. cbn in Hi. destruct i as [|[|i]]; try lia.
+  - unfold offdiag, sumR, sp_entry, suml, seg. cbn. rewrite Rabs_pos_eq by lra. lra.
+  - unfold offdiag, sumR, sp_entry, suml, seg. cbn. rewrite Rabs_pos_eq by lra. lra.
+Qed.
